@@ -110,6 +110,8 @@ type posChecker struct {
 	grammar  string
 	fails    int
 	newClass int // > 0 while inside the class reference of a new expression
+	lines    []int // line of every offset by the independent definition (LineTable)
+	linesOK  bool  // conjunction of "recorded line == line of the recorded offset" (may be symbolic)
 }
 
 func (pc *posChecker) fail(id, kind, parent, what string) {
@@ -189,6 +191,16 @@ func (pc *posChecker) check(n ast.Vertex, parent string) span {
 		// no token of its own anywhere below: only -1/-1 or nothing is meaningful
 		return sp
 	}
+	// the line fields are the lines of the offsets (independent, non-forking line count:
+	// LF, CRLF and a lone CR each end one line)
+	if pc.lines != nil {
+		if pos.StartPos >= 0 && pos.StartPos < len(pc.lines) {
+			pc.linesOK = And(pc.linesOK, pos.StartLine == pc.lines[pos.StartPos])
+		}
+		if pos.EndPos > 0 && pos.EndPos > pos.StartPos && pos.EndPos-1 < len(pc.lines) {
+			pc.linesOK = And(pc.linesOK, pos.EndLine == pc.lines[pos.EndPos-1])
+		}
+	}
 	if pos.StartPos == -1 {
 		if !openStart(n) {
 			pc.fail("C05:start", kind, parent, "-1 without an empty leading list")
@@ -231,8 +243,9 @@ func H_C05() {
 		Cover("discarded:errors-reported")
 		return
 	}
-	pc := &posChecker{grammar: grammarName(major)}
+	pc := &posChecker{grammar: grammarName(major), lines: LineTable(in), linesOK: true}
 	pc.check(a.Root, "-")
+	Assert("C05:lines-are-the-lines-of-the-offsets", pc.linesOK)
 	Cover("error-free")
 }
 
